@@ -309,6 +309,50 @@ impl EventParser {
                     symbols,
                 );
             }
+            // Blocks that are expressions of their own kind: unsafe { .. }, async move { .. }
+            Expr::Unsafe(expr_unsafe) => {
+                self.extract_events_from_block(
+                    &expr_unsafe.block.stmts,
+                    file_path,
+                    type_resolver,
+                    events,
+                    symbols,
+                );
+            }
+            Expr::Async(expr_async) => {
+                self.extract_events_from_block(
+                    &expr_async.block.stmts,
+                    file_path,
+                    type_resolver,
+                    events,
+                    symbols,
+                );
+            }
+            // The body of a closure: move || { app.emit(..) }
+            Expr::Closure(expr_closure) => {
+                self.extract_events_from_expr(
+                    &expr_closure.body,
+                    file_path,
+                    type_resolver,
+                    events,
+                    symbols,
+                );
+            }
+            // Arguments of a call: tokio::spawn(async move { app.emit(..) })
+            Expr::Call(expr_call) => {
+                for arg in &expr_call.args {
+                    self.extract_events_from_expr(arg, file_path, type_resolver, events, symbols);
+                }
+            }
+            Expr::Paren(expr_paren) => {
+                self.extract_events_from_expr(
+                    &expr_paren.expr,
+                    file_path,
+                    type_resolver,
+                    events,
+                    symbols,
+                );
+            }
             Expr::Await(expr_await) => {
                 self.extract_events_from_expr(
                     &expr_await.base,
